@@ -7,7 +7,7 @@ TITLE = "returned specifications: closed, one rule per class, genuine, productiv
 COQ_PROPS = "Props/C02.v"
 COQ_RUN = ("Spec.ExtractorRun", "run_c02")
 GEN_TARGETS = []
-N = {"quick": 700, "thorough": 12000}
+N = {"quick": 8000, "thorough": 40000}
 RULE = (
     "real searches: word universes (16 start classes x 10 packs incl. symmetries, inferral, factories with ready and "
     "foreign-parent rules, non-atom verification, iterative x 4 rule databases x expand_verified/smallest x random "
